@@ -99,4 +99,14 @@ META = {
     design_ref='DESIGN.md 6/C06',
     note='subscriber.Close() is checked at quiescence, not at the instant Close returns (the statement does not require it to be synchronous). Design model: one handler.',
     technique='TLC model checking of the shutdown protocol + forced-schedule trace validation against an abstract graceful-close spec'),
+ 'C10': dict(
+    text='The start-up path of RouterLifecycle.tla (RunHandlers: subscribe, stopFn/stopped, close(startedCh), spawn) with a user calling Stop() the moment Started() closes is '
+         'model-checked (NoPanic; the Started-before-stopFn design is rejected in 86 states). RouterLifecycleAbs.tla states the API-level rules: one Subscribe per handler however '
+         'often and however concurrently RunHandlers is called, Running() only after all handlers registered before Run subscribed, Stop/Stopped usable once Started() closed, '
+         'Stop affects only that handler (and those sharing its publisher), self-close + Run nil when the context is cancelled or all handlers stopped, second Run errors. Real '
+         'Routers execute targeted and random lifecycle programs (incl. a gate right after close(startedCh), concurrent RunHandlers with slow Subscribe, a second Run while the '
+         'first is held inside Subscribe) and the event traces are validated by TLC',
+    design_ref='DESIGN.md 6/C10',
+    note='Handlers are not added concurrently with the router shutting down (as the quantifier says). Probe messages time out after 700 ms.',
+    technique='TLC model checking of the start-up protocol + trace validation of lifecycle programs against an abstract API spec'),
 }
